@@ -75,8 +75,7 @@ Section WithEnv.
   Lemma param_name_same : forall i f st, same_buckets (snd (handle_param_name E i f st)) st.
   Proof.
     intros. unfold handle_param_name. destruct (f_arg f) as [a|]; [|apply add_report_same].
-    destruct (annotations_of_source E) as [anns|]; [|apply same_buckets_refl].
-    destruct (find _ anns); apply same_buckets_refl.
+    destruct (annotations_of_source E) as [anns|]; apply same_buckets_refl.
   Qed.
 
   (* name returned by _handle_param_name: the argument without its stars *)
@@ -87,11 +86,12 @@ Section WithEnv.
     assert (LS : forall t, lstrip_star t = strip_stars t).
     { induction t as [|c t IH]; [reflexivity|]. cbn. destruct c as [|p]; [reflexivity|].
       repeat (destruct p as [p|p|]; try reflexivity); try exact IH. }
-    destruct (annotations_of_source E) as [anns|].
-    - destruct (find (fun p => text_eqb (pn_text p) (lstrip_star a)) anns) as [p|] eqn:F; cbn [fst]; intro H; inversion H; subst.
-      + apply find_some in F. destruct F as [_ F]. apply text_eqb_eq in F. rewrite F. first [reflexivity | f_equal; symmetry; apply LS].
-      + cbn. first [reflexivity | f_equal; symmetry; apply LS].
-    - cbn [fst]. intro H. inversion H; subst. cbn. first [reflexivity | f_equal; symmetry; apply LS].
+    assert (CN : forall anns n0, pn_text (canon_name anns n0) = pn_text n0).
+    { induction anns as [|p anns IH]; intro n0; [reflexivity|]. unfold canon_name in *. cbn [fold_left].
+      destruct (text_eqb (pn_text p) (pn_text n0)) eqn:Ep; [|apply IH]. rewrite IH. apply text_eqb_eq. exact Ep. }
+    destruct (annotations_of_source E) as [anns|]; cbn [fst]; intro H; inversion H; subst.
+    - rewrite CN. cbn. first [reflexivity | f_equal; symmetry; apply LS].
+    - cbn. first [reflexivity | f_equal; symmetry; apply LS].
   Qed.
 
   Lemma param_name_none : forall i f st,
@@ -99,7 +99,7 @@ Section WithEnv.
     exists r, st_reports (snd (handle_param_name E i f st)) = st_reports st ++ [r] /\ rp_field r = i.
   Proof.
     intros i f st. unfold handle_param_name. destruct (f_arg f) as [a|].
-    - destruct (annotations_of_source E) as [anns|]; [destruct (find _ anns)|]; cbn [fst]; discriminate.
+    - destruct (annotations_of_source E) as [anns|]; cbn [fst]; discriminate.
     - intros _. split; [reflexivity|]. st_simpl. cbn [snd]. st_simpl. eexists. split; reflexivity.
   Qed.
 
